@@ -67,6 +67,70 @@ func (m *machine) checkRegistry(t *rapid.T, after string) {
 	if n != len(m.subs) {
 		world.Fail(t, "C08/registry-mismatch/count", "%d entries reported, model has %d%s", n, len(m.subs), m.history())
 	}
+	// ... and the same as a peer sees it: the reply to its read of the subscription data
+	for pi, p := range m.w.Peers {
+		p.Cap.Drain()
+		// (this implementation serves the list on a call, not on a read)
+		d := p.Msg(model.CmdClassifierTypeCall, p.NM(), world.LocalNM(), false, nil, model.CmdType{NodeManagementSubscriptionData: &model.NodeManagementSubscriptionDataType{}})
+		p.Send(d)
+		m.w.Sync()
+		var reply *model.NodeManagementSubscriptionDataType
+		for _, s := range p.Cap.Drain() {
+			if s.Classifier() == model.CmdClassifierTypeReply && s.Ref() != nil && *s.Ref() == *d.Header.MsgCounter {
+				reply = s.Cmd().NodeManagementSubscriptionData
+				if reply == nil {
+					reply = &model.NodeManagementSubscriptionDataType{}
+				}
+			}
+		}
+		if reply == nil {
+			world.Fail(t, "C08/reported-list/no-reply", "peer%d's read of the subscription data was not answered%s", pi+1, m.history())
+		}
+		want := map[string]bool{}
+		for k := range m.subs {
+			if k.Peer == pi {
+				want[k.Client+"->"+k.Server] = true
+			}
+		}
+		gotPairs := map[string]int{}
+		idsSeen := map[uint64]bool{}
+		for _, e := range reply.SubscriptionEntry {
+			if e.ClientAddress == nil || e.ServerAddress == nil || e.SubscriptionId == nil {
+				world.Fail(t, "C08/reported-list/incomplete-entry", "peer%d's subscription list holds an incomplete entry: %s%s", pi+1, world.JSON(e), m.history())
+			}
+			gotPairs[refOfAddr(e.ClientAddress)+"->"+refOfAddr(e.ServerAddress)]++
+			if idsSeen[uint64(*e.SubscriptionId)] {
+				world.Fail(t, "C08/reported-list/duplicate-id", "peer%d's subscription list holds id %d twice%s", pi+1, *e.SubscriptionId, m.history())
+			}
+			idsSeen[uint64(*e.SubscriptionId)] = true
+		}
+		okList := len(gotPairs) == len(want)
+		for k, c := range gotPairs {
+			if !want[k] || c != 1 {
+				okList = false
+			}
+		}
+		if !okList || len(reply.SubscriptionEntry) != len(want) {
+			var w []string
+			for k := range want {
+				w = append(w, k)
+			}
+			sort.Strings(w)
+			world.Fail(t, "C08/reported-list/differs-from-registry", "after %s the subscription list peer%d reads (%s) is not its entries %v%s", after, pi+1, world.JSON(reply), w, m.history())
+		}
+	}
+}
+
+func refOfAddr(a *model.FeatureAddressType) string {
+	var ent []uint
+	for _, e := range a.Entity {
+		ent = append(ent, uint(e))
+	}
+	f := uint(0)
+	if a.Feature != nil {
+		f = uint(*a.Feature)
+	}
+	return regs.Ref{Ent: ent, Feat: f}.String()
 }
 
 func (m *machine) subscribe(t *rapid.T) {
